@@ -30,7 +30,7 @@ Definition inst_eqb (a b : inst) : bool :=
 
 Definition obs_eqb (a b : obs) : bool :=
   match a, b with
-  | ODone, ODone | ORejected, ORejected | OExitFailed, OExitFailed | ONoCtx, ONoCtx => true
+  | ODone, ODone | OReraised, OReraised | ORejected, ORejected | OExitFailed, OExitFailed | ONoCtx, ONoCtx => true
   | OName n, OName m => Nat.eqb n m
   | OInst i, OInst j => inst_eqb i j
   | _, _ => false
@@ -104,7 +104,8 @@ Definition agree_h (c : hcase) : bool :=
                     thread, a, b, c, outcome, seen * nthreads
        set/enter: a = selector kind (0 name, 1 instance, 2 non-instance), b = its index, c = local flag
        exit     : a = exceptional?, b = c = 0
-       outcome  : 0 done, 1 rejected, 2 exit failed, 3 no context
+       outcome  : 0 done, 1 rejected, 2 exit failed (the finally clause raised), 3 no context,
+                  4 the body's exception propagated out of the `with` statement after the restore
      seen = two digits per observed manager (mode 2: backend first): code of the name get_backend()
             returned (63 = a name outside the tables), executing object (0 unmarked stock object,
             1 unidentified, 2+n Named n, 8+k Obj k) *)
@@ -154,7 +155,7 @@ Definition dec_sel (a b : nat) : sel :=
   match a with 0 => SName b | 1 => SInst (Obj b) | _ => SInst (Foreign b) end.
 Definition dec_bool (c : nat) : bool := negb (Nat.eqb c 0).
 Definition dec_out (d : nat) : obs :=
-  match d with 0 => ODone | 1 => ORejected | 2 => OExitFailed | _ => ONoCtx end.
+  match d with 0 => ODone | 1 => ORejected | 2 => OExitFailed | 4 => OReraised | _ => ONoCtx end.
 
 (* in the single-manager modes every operation must name that manager *)
 Definition mgr_ok (mode : nat) (m : bool) : bool :=
@@ -243,19 +244,35 @@ Definition outs_eqb (l : list obs) (o : obs) : bool :=
 (* manager, threads holding a selection at the start, observers, atomic set-up history, the two
    concurrent operations (of different threads) with their outcomes, what everybody saw when both had
    returned, atomic follow-up *)
+Fixpoint merges_all {A} (ls : list (list A)) : list (list A) :=
+  match ls with [] => [[]] | l :: ls' => flat_map (merges l) (merges_all ls') end.
+
+Fixpoint distinct (l : list nat) : bool :=
+  match l with [] => true | x :: r => negb (existsb (Nat.eqb x) r) && distinct r end.
+
+(* manager, threads holding a selection at the start, observers, atomic set-up history, the concurrent
+   operations (of different threads) with their outcomes, what everybody saw when all had returned,
+   atomic follow-up *)
+Definition mcaseN := (bool * list (tid * inst) * list tid * list op * list (op * obs) * list seen
+                      * list (op * obs * list seen))%type.
+
+Definition agree_mN (c : mcaseN) : bool :=
+  let '(tenalg, own0, ths, setup, conc, xs, post) := c in
+  let cf := cfg_of tenalg in
+  let b0 := of_st (run fixed_rules cf (init (own_of own0)) setup) in
+  distinct (map (fun x => thr (fst x)) conc) &&
+  existsb (fun h =>
+             let b := arun fixed_rules cf b0 h in
+             forallb (fun x => outs_eqb (p_out (b_priv b (thr (fst x)))) (snd x)) conc &&
+             all_seen tenalg (to_st b) ths xs && check1 tenalg ths (to_st b) post)
+          (merges_all (map (fun x => flat [fst x]) conc)).
+
 Definition mcase := (bool * list (tid * inst) * list tid * list op * (op * obs) * (op * obs) * list seen
                      * list (op * obs * list seen))%type.
 
 Definition agree_m (c : mcase) : bool :=
-  let '(tenalg, own0, ths, setup, (oa, ra), (ob, rb), xs, post) := c in
-  let cf := cfg_of tenalg in
-  let b0 := of_st (run fixed_rules cf (init (own_of own0)) setup) in
-  negb (Nat.eqb (thr oa) (thr ob)) &&
-  existsb (fun h =>
-             let b := arun fixed_rules cf b0 h in
-             outs_eqb (p_out (b_priv b (thr oa))) ra && outs_eqb (p_out (b_priv b (thr ob))) rb &&
-             all_seen tenalg (to_st b) ths xs && check1 tenalg ths (to_st b) post)
-          (merges (flat [oa]) (flat [ob])).
+  let '(tenalg, own0, ths, setup, a, b, xs, post) := c in
+  agree_mN (tenalg, own0, ths, setup, [a; b], xs, post).
 
 (* transport: digits  3, tenalg, nthreads, main_holds, nsetup, setup ops (5 digits each), op A (5), outcome A,
    op B (5), outcome B, seen * nthreads, npost, then per follow-up step: op (5), outcome, seen * nthreads;
@@ -343,7 +360,7 @@ Definition dec_act (d : nat) : act * bool :=
   (match k with
    | 0 => ASave | 1 => ATls (Const (Obj 3)) | 2 => ATls FromReg | 3 => ADname FromReg
    | 4 => AShared (Const (Obj 3)) | 5 => AShared FromReg | 6 => APush false | 7 => APush true
-   | 8 => APop | 10 => AEmit ODone | _ => ADispatch end, tagged).
+   | 8 => APop | 10 => AEmit ODone | 11 => AEmit OReraised | _ => ADispatch end, tagged).
 
 Definition wfpb (l : prog) : bool := forallb (fun ab => snd ab || is_private (fst ab)) l.
 
@@ -408,19 +425,57 @@ Definition agree_src (l : list nat) : bool :=
    in set_backend) and an exit that drops the flag are not *)
 Example src_example :
   let setg := [1; 3; 20; 10] in let setl := [17; 10] in
-  let good := [4] ++ setg ++ [6; 16; 1; 3; 20; 6; 10] ++ [5; 8; 2; 3; 21; 10] ++ [5; 8; 2; 3; 21; 10]
-              ++ [2] ++ setl ++ [4; 16; 17; 7; 10] ++ [3; 8; 18; 10] ++ [3; 8; 18; 10] in
-  let reordered := [4; 3; 20; 1; 10] ++ [6; 16; 3; 20; 1; 6; 10] ++ [5; 8; 3; 21; 2; 10] ++ [5; 8; 3; 21; 2; 10]
-              ++ [2] ++ setl ++ [4; 16; 17; 7; 10] ++ [3; 8; 18; 10] ++ [3; 8; 18; 10] in
+  let good := [4] ++ setg ++ [6; 16; 1; 3; 20; 6; 10] ++ [5; 8; 2; 3; 21; 10] ++ [5; 8; 2; 3; 21; 11]
+              ++ [2] ++ setl ++ [4; 16; 17; 7; 10] ++ [3; 8; 18; 10] ++ [3; 8; 18; 11] in
+  let reordered := [4; 3; 20; 1; 10] ++ [6; 16; 3; 20; 1; 6; 10] ++ [5; 8; 3; 21; 2; 10] ++ [5; 8; 3; 21; 2; 11]
+              ++ [2] ++ setl ++ [4; 16; 17; 7; 10] ++ [3; 8; 18; 10] ++ [3; 8; 18; 11] in
   let readback := [5; 3; 20; 25; 2; 10] ++ skipn 5 good in
-  let dropflag := firstn 32 good ++ [5; 8; 2; 3; 21; 10] ++ [5; 8; 2; 3; 21; 10] in
-  agree_src good = true /\ agree_src reordered = true /\ agree_src readback = false /\ agree_src dropflag = false.
+  let dropflag := firstn 32 good ++ [5; 8; 2; 3; 21; 10] ++ [5; 8; 2; 3; 21; 11] in
+  (* an except clause that swallows the body's exception: the exit by exception answers like a normal one *)
+  let swallow := firstn 18 good ++ [5; 8; 2; 3; 21; 10] ++ skipn 24 good in
+  agree_src good = true /\ agree_src reordered = true /\ agree_src readback = false /\ agree_src dropflag = false /\
+  agree_src swallow = false.
 Proof. vm_compute. repeat split. Qed.
+
+(* three (or more) concurrent calls: digits  5, tenalg, nthreads, main_holds, nsetup, setup ops, nconc,
+   then per concurrent call: op (5), outcome; seen * nthreads, npost, follow-up steps *)
+Fixpoint dec_conc (n : nat) (l : list nat) : option (list (op * obs) * list nat) :=
+  match n with
+  | O => Some ([], l)
+  | S n' => match l with
+            | k :: t :: a :: b :: c :: r :: l' =>
+                match dec_conc n' l' with Some (os, rest) => Some ((dec_op k t a b c, dec_out r) :: os, rest) | None => None end
+            | _ => None
+            end
+  end.
+
+Definition decode_mN (l : list nat) : option mcaseN :=
+  match l with
+  | ta :: nth :: own :: ns :: l1 =>
+      match dec_ops ns l1 with
+      | Some (setup, nc :: l2) =>
+          match dec_conc nc l2 with
+          | Some (conc, l3) =>
+              match dec_seen1 nth l3 with
+              | Some (xs, np :: l4) =>
+                  match dec_post nth np l4 with
+                  | Some post => Some (dec_bool ta, if dec_bool own then [(0, Named 0)] else [], seq 0 nth, setup, conc, xs, post)
+                  | None => None
+                  end
+              | _ => None
+              end
+          | None => None
+          end
+      | _ => None
+      end
+  | _ => None
+  end.
 
 Definition agree (c : case) : bool :=
   match digits (snd c) with
   | 3 :: l => match decode_m l with Some m => agree_m m | None => false end
   | 4 :: l => agree_src l
+  | 5 :: l => match decode_mN l with Some m => agree_mN m | None => false end
   | _ => agree_hist (snd c)
   end.
 
